@@ -34,6 +34,8 @@ TTup(es) == [t |-> "tup", es |-> es]
 TVar(es) == [t |-> "var", es |-> es]
 TBox(e) == [t |-> "box", e |-> e]
 TRec(e) == [t |-> "rec", e |-> e]
+TNull == [t |-> "null"]
+TBool == [t |-> "bool"]
 
 TupList(T) == IF T.t = "tup" THEN T.es ELSE <<T>>
 VarList(T) == IF T.t = "var" THEN T.es ELSE <<T>>
@@ -65,6 +67,8 @@ VSome(v) == [t |-> "opt", es |-> <<v>>]
 VTup(es) == [t |-> "tup", es |-> es]
 VVar(i, v) == [t |-> "var", i |-> i, v |-> v]
 VBox(v) == [t |-> "box", v |-> v]
+VNull == [t |-> "null"]                 \* a user type with one value (json::null)
+VBool(b) == [t |-> "bool", b |-> b]
 VRec(v) == [t |-> "rec", v |-> v]
 
 TupVals(T, v) == IF T.t = "tup" THEN v.es ELSE <<v>>
@@ -99,4 +103,6 @@ Enc(v) ==
     [] v.t = "box" -> <<9>> \o Enc(v.v)
     [] v.t = "rec" -> <<10>> \o Enc(v.v)
     [] v.t = "uint" -> <<11, v.n>>
+    [] v.t = "null" -> <<12>>
+    [] v.t = "bool" -> <<13, IF v.b THEN 1 ELSE 0>>
 =============================================================================
